@@ -12,8 +12,10 @@ for f in os.listdir(src):
         shutil.copy(os.path.join(src, f), dst)
 m = json.load(open(os.path.join(dst, "meta.json"))) if os.path.exists(os.path.join(dst, "meta.json")) else {}
 m["property"] = prop
-m["confirmed_by_lead"] = (os.environ.get("SEED_CONFIRM", "tools/confirm_seed.sh: baseline demo passes; with the patch the library builds, ctest passes, the demo fails. ") +
-                          "author's demo and test-suite claims re-checked as recorded in demo_output.txt" % prop)
+m["confirmed_by_lead"] = os.environ.get("SEED_CONFIRM",
+    "tools/confirm_seed.sh in a scratch worktree of /repo: baseline demo exits 0; with patch.diff applied the library builds, "
+    "ctest passes and the demo exits non-zero. Then `git -C /repo apply patch.diff; ./check %s --tier quick; "
+    "git -C /repo checkout -- .`." % prop)
 m["caught_by"] = caught.split(",") if caught != "MISSED" else []
 m["missed"] = caught == "MISSED"
 if note:
